@@ -47,6 +47,8 @@ Record conn := {
   delivered : bool;   (* asyncio has called H2Protocol.connection_lost *)
   paused : bool;      (* write_ready cleared *)
   goaway : bool;      (* GOAWAY received: h2 state machine CLOSED *)
+  held : bool;        (* the transport withholds connection_lost after close() (e.g. an unflushed write
+                         buffer towards a dead peer): it is delivered only by an explicit `Lose` *)
   calls : list nat;   (* processor.streams: registered callers, registration order *)
   wrw : list nat      (* callers waiting on write_ready, FIFO *)
 }.
@@ -73,10 +75,10 @@ Definition init (sc : list (outcome * bool)) : state :=
 
 (* ---- plain accessors / updaters ------------------------------------------------------------- *)
 Definition dead_conn : conn :=
-  {| lost := true; closing := true; delivered := true; paused := false; goaway := false;
+  {| lost := true; closing := true; delivered := true; paused := false; goaway := false; held := false;
      calls := []; wrw := [] |}.
 Definition fresh_conn : conn :=
-  {| lost := false; closing := false; delivered := false; paused := false; goaway := false;
+  {| lost := false; closing := false; delivered := false; paused := false; goaway := false; held := false;
      calls := []; wrw := [] |}.
 Definition no_caller : caller := {| ph := PEnd (RExn ECancelled); cancelp := false; answered := false; term := false |}.
 Definition new_caller : caller := {| ph := PNew; cancelp := false; answered := false; term := false |}.
@@ -121,19 +123,21 @@ Definition c_answered v (x : caller) := {| ph := ph x; cancelp := cancelp x; ans
 Definition c_term v (x : caller) := {| ph := ph x; cancelp := cancelp x; answered := answered x; term := v |}.
 
 Definition n_lost v (x : conn) := {| lost := v; closing := closing x; delivered := delivered x; paused := paused x;
-  goaway := goaway x; calls := calls x; wrw := wrw x |}.
+  goaway := goaway x; held := held x; calls := calls x; wrw := wrw x |}.
 Definition n_closing v (x : conn) := {| lost := lost x; closing := v; delivered := delivered x; paused := paused x;
-  goaway := goaway x; calls := calls x; wrw := wrw x |}.
+  goaway := goaway x; held := held x; calls := calls x; wrw := wrw x |}.
 Definition n_delivered v (x : conn) := {| lost := lost x; closing := closing x; delivered := v; paused := paused x;
-  goaway := goaway x; calls := calls x; wrw := wrw x |}.
+  goaway := goaway x; held := held x; calls := calls x; wrw := wrw x |}.
 Definition n_paused v (x : conn) := {| lost := lost x; closing := closing x; delivered := delivered x; paused := v;
-  goaway := goaway x; calls := calls x; wrw := wrw x |}.
+  goaway := goaway x; held := held x; calls := calls x; wrw := wrw x |}.
 Definition n_goaway v (x : conn) := {| lost := lost x; closing := closing x; delivered := delivered x; paused := paused x;
-  goaway := v; calls := calls x; wrw := wrw x |}.
+  goaway := v; held := held x; calls := calls x; wrw := wrw x |}.
+Definition n_held v (x : conn) := {| lost := lost x; closing := closing x; delivered := delivered x; paused := paused x;
+  goaway := goaway x; held := v; calls := calls x; wrw := wrw x |}.
 Definition n_calls v (x : conn) := {| lost := lost x; closing := closing x; delivered := delivered x; paused := paused x;
-  goaway := goaway x; calls := v; wrw := wrw x |}.
+  goaway := goaway x; held := held x; calls := v; wrw := wrw x |}.
 Definition n_wrw v (x : conn) := {| lost := lost x; closing := closing x; delivered := delivered x; paused := paused x;
-  goaway := goaway x; calls := calls x; wrw := v |}.
+  goaway := goaway x; held := held x; calls := calls x; wrw := v |}.
 
 Definition setph k v s := updk k (c_ph v) s.
 Definition endc k r s := setph k (PEnd r) s.
@@ -152,6 +156,10 @@ Fixpoint remove1 (a : item) (l : list item) : list item :=
 Definition enq (i : item) s := set_rq (rq s ++ [i]) s.
 Definition deq (i : item) s := set_rq (remove1 i (rq s)) s.
 Definition remove_nat (k : nat) (l : list nat) : list nat := filter (fun x => negb (Nat.eqb x k)) l.
+
+(* transport.close(): `call_soon(connection_lost)` -- unless the transport withholds it *)
+Definition sched_lost (c : nat) (s : state) : state :=
+  if held (nth c (conns s) dead_conn) then s else enq (ILost c) s.
 
 (* ---- Channel._connected ---------------------------------------------------------------------- *)
 Definition conn_live (x : conn) : bool := negb (lost x) && negb (closing x).
@@ -264,7 +272,7 @@ Definition terminate (c : nat) (s : state) : state := fold_left (terminate1 c) (
 (* EventsProcessor.close(): connection.close(); handler.close(); every registered stream terminated *)
 Definition proc_close (c : nat) (s : state) : state :=
   let s := if closing (getc s c) then s
-           else enq (ILost c) (updc c (n_closing true) s) in   (* transport.close(): call_soon(connection_lost) *)
+           else sched_lost c (updc c (n_closing true) s) in     (* transport.close() *)
   terminate c (updc c (n_lost true) s).
 
 (* asyncio calls H2Protocol.connection_lost (at most once per transport) *)
@@ -299,7 +307,7 @@ Definition run_caller (k : nat) (s : state) : state :=
         (* CancelledError is not an Exception: _state stays; the lock is released by `async with`;
            a connection already made is closed by the connector *)
         let s := match a with
-                 | AOk c => if closing (getc s c) then s else enq (ILost c) (updc c (n_closing true) s)
+                 | AOk c => if closing (getc s c) then s else sched_lost c (updc c (n_closing true) s)
                  | _ => s
                  end in
         endc k (RExn ECancelled) (release s)
@@ -359,7 +367,8 @@ Inductive op :=
 | KAClose (c : nat)     (* keepalive timeout: Connection.close() only *)
 | ChClose               (* Channel.close() *)
 | Pause (c : nat) | Resume (c : nat)
-| Answer (k : nat).     (* the peer's complete response to k's call arrives *)
+| Answer (k : nat)      (* the peer's complete response to k's call arrives *)
+| Hold (c : nat).       (* from now on c's transport withholds connection_lost after close() *)
 
 Definition valid_open (s : state) (c : nat) : bool :=
   Nat.ltb c (length (conns s)) && negb (closing (getc s c)) && negb (delivered (getc s c)).
@@ -380,7 +389,7 @@ Definition step (s : state) (o : op) : state :=
   | Cancel k => cancel_caller k s
   | Lose c => conn_lost c s
   | GoAway c => if valid_open s c then proc_close c (updc c (n_goaway true) s) else s
-  | KAClose c => if valid_open s c then enq (ILost c) (updc c (n_closing true) s) else s
+  | KAClose c => if valid_open s c then sched_lost c (updc c (n_closing true) s) else s
   | ChClose =>
       set_chst Idle
         match protocol s with
@@ -402,6 +411,7 @@ Definition step (s : state) (o : op) : state :=
       | PReg c => if valid_open s c && negb (answered x) then mark k (updk k (c_answered true)) s else s
       | _ => s
       end
+  | Hold c => updc c (n_held true) s
   end.
 
 Definition run (ops : list op) (s : state) : state := fold_left step ops s.
@@ -418,7 +428,7 @@ Definition has_result (s : state) (k : nat) (r : result) : Prop := ph (getk s k)
 (* ---- the deterministic FIFO schedule of the correspondence check ----------------------------- *)
 Inductive stim :=
 | SStart | SResolve | SCancel (k : nat) | SLose (c : nat) | SGoAway (c : nat) | SKAClose | SChClose
-| SPause (c : nat) | SResume (c : nat) | SAnswer (k : nat).
+| SPause (c : nat) | SResume (c : nat) | SAnswer (k : nat) | SHold (c : nat).
 
 Fixpoint first_inflight (l : list caller) (i : nat) : option nat :=
   match l with
@@ -438,6 +448,7 @@ Definition stim_ops (s : state) (t : stim) : list op :=
   | SPause c => [Pause c]
   | SResume c => [Resume c]
   | SAnswer k => [Answer k]
+  | SHold c => [Hold c]
   end.
 
 Definition item_op (i : item) : op := match i with IRun k => Run k | ILost c => Lose c end.
